@@ -5,7 +5,8 @@
    time.MarshalText: the theorems hold for every such formatter. *)
 From Coq Require Import List ZArith NArith Bool.
 From Storage Require Import Base.Bytes Ast.F64 Ast.Values Ast.Schema Ast.Stacked Ast.Untyped Ast.Typed Ast.Typer
-  Ast.Eval Ast.Spec Ast.Seek Ast.StackedProofs Ast.ScanProofs Ast.TyperProofs Ast.ChildStore Ast.ChildStoreProofs.
+  Ast.Eval Ast.Spec Ast.Seek Ast.StackedProofs Ast.ScanProofs Ast.TyperProofs Ast.ChildStore Ast.ChildStoreProofs
+  Ast.Session Ast.SessionProofs.
 From Coq Require Import Permutation.
 Import ListNotations.
 
@@ -140,3 +141,66 @@ Theorem strategy_id_order_exact :
     ids = page skip limit (match k with ORev => rev M | _ => M end) /\ (forall c, count = Some c -> c = Z.of_nat (length M)).
 Proof. exact strategy_exact_complete. Qed.
 Print Assumptions strategy_id_order_exact.
+
+(* ---- sequences of queries within one process (Ast/Session.v) ---- *)
+
+(* ast.Parse allocates the query object it returns and the mutators of ast.Query (SetPredicate, SetSkip, SetLimit,
+   AdoptSortFields) change the object their caller holds: after ANY earlier callers (whatever they parsed, refined
+   and evaluated, on whatever store; [h] = the objects they left behind) the object a caller evaluates is the one
+   built from its own filter text and its own mutators. *)
+Theorem session_objects_independent :
+  forall (l : list step) (h : heap),
+    run_session h l = map (fun s => Some (fold_left mutate (s_muts s) (parse_obj (s_text s)))) l.
+Proof. exact session_objects_lemma. Qed.
+Print Assumptions session_objects_independent.
+
+(* Evaluation of a filter text is a function of the text (+ the caller's own refinements) and the database only:
+   the answer a step gets is the same in every session that contains the step, at whatever position. *)
+Theorem session_history_irrelevant :
+  forall (fmt_float : f64 -> str) (fmt_time : Z -> Z -> str) (sch : schema) (d : db) (h h' : heap)
+         (pre pre' post post' : list step) (s : step),
+    nth_error (session_answers fmt_float fmt_time sch d h (pre ++ s :: post)) (length pre) =
+    nth_error (session_answers fmt_float fmt_time sch d h' (pre' ++ s :: post')) (length pre').
+Proof. exact session_history_irrelevant_lemma. Qed.
+Print Assumptions session_history_irrelevant.
+
+(* ... and it is the documented one: a caller that refined its query gets exactly the entities the refined query
+   selects (new predicate, then skip / limit), *)
+Theorem session_step_exact :
+  forall (fmt_float : f64 -> str) (fmt_time : Z -> Z -> str) (sch : schema) (d : db) (h : heap)
+         (pre post : list step) (s : step) (t : typed),
+    typer sch (s_store s) (refine (s_text s) (s_muts s)) = Ok t ->
+    wf_db sch d ->
+    nth_error (session_answers fmt_float fmt_time sch d h (pre ++ s :: post)) (length pre) =
+      Some (Ok (spec_ids fmt_float fmt_time sch d (s_store s) (refine (s_text s) (s_muts s)))).
+Proof. exact session_step_exact_lemma. Qed.
+Print Assumptions session_step_exact.
+
+(* a plain query (textually identical to an earlier, refined one or not) exactly the entities satisfying its
+   predicate: no omission, no extra, whatever happened before. *)
+Theorem session_query_exact :
+  forall (fmt_float : f64 -> str) (fmt_time : Z -> Z -> str) (sch : schema) (d : db) (h : heap)
+         (pre post : list step) (S : nat) (p : untyped) (skip limit : option Z) (t : typed),
+    typer sch S (UQuery p skip limit) = Ok t ->
+    wf_db sch d ->
+    nth_error (session_answers fmt_float fmt_time sch d h
+                 (pre ++ {| s_store := S; s_text := UQuery p skip limit; s_muts := [] |} :: post)) (length pre) =
+      Some (Ok (spec_ids fmt_float fmt_time sch d S (UQuery p skip limit))).
+Proof. exact session_query_exact_lemma. Qed.
+Print Assumptions session_query_exact.
+
+(* Interleavings: several callers hold query objects at the same time and parse / refine / evaluate in any order
+   (in particular: a caller refines its object, meanwhile another caller runs a query of its own - the scanners call
+   SetSkip / SetLimit on that one -, then the first caller evaluates).  Every caller evaluates the object built from
+   what IT parsed and the mutators IT applied ... *)
+Theorem session_interleaving_independent :
+  forall l : list event, run_events start l = spec_events no_view l.
+Proof. exact events_interleaving_lemma. Qed.
+Print Assumptions session_interleaving_independent.
+
+(* ... and that object is a function of the caller's own events only. *)
+Theorem caller_view_own_events :
+  forall (l : list event) (v : view) (c : nat),
+    fold_left view_step l v c = fold_left view_step (own_events c l) v c.
+Proof. exact view_own_events_lemma. Qed.
+Print Assumptions caller_view_own_events.
